@@ -47,6 +47,8 @@ def stations(rng):
     else:
         c = float(rng.choice([0.0, 90.0, 180.0, 270.0, 359.0]))
         lon = (c + rng.uniform(-3, 3, n)) % 360
+    if kind == "dateline" and rng.random() < 0.5:
+        lon[int(rng.integers(n))] = 180.0
     lat = rng.uniform(-60, 60, n) if kind == "random" else rng.uniform(-3, 3, n)
     # multiples of 1/8 degree: exactly representable, so that mod-360 arithmetic and "distance
     # exactly zero" do not depend on rounding
@@ -123,12 +125,25 @@ def one(ctx, rng, xr):
     kw = dict(dset_lons=ds["lon"].values.copy(), dset_lats=ds["lat"].values.copy()) if pre else {}
     key = "%s|stations=%s:%s|dset=%s|query=%s%s|tol=%g|pre=%s|hist=%s" % (method, kind, sdt, dconv, qconv, ":offlattice" if offlat else "", tol, pre, hist)
     det = {"station_lon": dlon, "station_lat": slat, "query_lon": qlon, "query_lat": qlat, "tolerance": tol, "method": method}
+    # the query is handed over as lists or as numpy arrays the caller keeps
+    as_arrays = bool(rng.random() < 0.5)
+    qarg = (np.array(qlon, dtype="float64"), np.array(qlat, dtype="float64")) if as_arrays else (list(qlon), list(qlat))
+    lon0, lat0 = ds["lon"].values.copy(), ds["lat"].values.copy()
     if method == "nearest":
-        nearest(rec, key, det, ds, slon, slat, qlon, qlat, qconv, tol, kw, rng, E)
+        nearest(rec, key, det, ds, slon, slat, qlon, qlat, qconv, tol, kw, rng, E, qarg)
     elif method == "idw":
-        idw(rec, key, det, ds, slon, slat, qlon, qlat, qconv, tol, kw, rng, E)
+        idw(rec, key, det, ds, slon, slat, qlon, qlat, qconv, tol, kw, rng, E, qarg)
     else:
-        bbox(rec, key, det, ds, slon, slat, dlon, qlon, qlat, qconv, tol, kw, rng, E)
+        bbox(rec, key, det, ds, slon, slat, dlon, qlon, qlat, qconv, tol, kw, rng, E, qarg)
+    # a later selection on the same dataset / with the same query objects must see what this one saw
+    same_q = np.array_equal(np.asarray(qarg[0], dtype="float64"), qlon) and np.array_equal(np.asarray(qarg[1], dtype="float64"), qlat)
+    same_d = np.array_equal(ds["lon"].values, lon0) and np.array_equal(ds["lat"].values, lat0)
+    pk = "%s|dset=%s|query=%s|%s" % (method, dconv, qconv, "arrays" if as_arrays else "lists")
+    if same_q and same_d:
+        rec.ok("inputs_left_for_next_selection", pk)
+    else:
+        rec.bad("inputs_left_for_next_selection", pk, dict(det, query_lon_after=np.asarray(qarg[0]), dataset_lon_before=lon0, dataset_lon_after=ds["lon"].values),
+                "selection-rewrites-query-array" if not same_q else "selection-rewrites-dataset-coordinates")
 
 
 def short_way_defect(slon, slat, qlon, qlat, tol, chosen):
@@ -140,7 +155,7 @@ def short_way_defect(slon, slat, qlon, qlat, tol, chosen):
     return out
 
 
-def nearest(rec, key, det, ds, slon, slat, qlon, qlat, qconv, tol, kw, rng, E):
+def nearest(rec, key, det, ds, slon, slat, qlon, qlat, qconv, tol, kw, rng, E, qarg):
     exp, amb, fail = [], False, False
     for lo, la in zip(qlon, qlat):
         d = dist(slon, slat, lo, la)
@@ -173,7 +188,7 @@ def nearest(rec, key, det, ds, slon, slat, qlon, qlat, qconv, tol, kw, rng, E):
         fail = False
         if not exp:
             try:
-                ds.spec.sel(list(qlon), list(qlat), method="nearest", tolerance=tol, **kw)
+                ds.spec.sel(*qarg, method="nearest", tolerance=tol, **kw)
                 rec.bad("nearest", key, dict(det, expected="ValueError: no site within tolerance"), "nearest-ignore-returns-nothing-silently")
             except ValueError:
                 rec.ok("nearest", key + "|nothing-in-range-rejected")
@@ -184,7 +199,7 @@ def nearest(rec, key, det, ds, slon, slat, qlon, qlat, qconv, tol, kw, rng, E):
         # method=None: only exact matches are accepted
         allz = all(dist(slon, slat, lo, la).min() == 0 for lo, la in zip(qlon, qlat))
         try:
-            r = ds.spec.sel(list(qlon), list(qlat), method=None, tolerance=tol, **kw)
+            r = ds.spec.sel(*qarg, method=None, tolerance=tol, **kw)
             ok_ = allz and not fail
         except AssertionError:
             ok_ = (not allz) or fail
@@ -201,7 +216,7 @@ def nearest(rec, key, det, ds, slon, slat, qlon, qlat, qconv, tol, kw, rng, E):
         kw = None
     try:
         if kw is not None:
-            r = ds.spec.sel(list(qlon), list(qlat), method="nearest", tolerance=tol, **kw)
+            r = ds.spec.sel(*qarg, method="nearest", tolerance=tol, **kw)
     except AssertionError as e:
         if fail:
             rec.ok("nearest", key + "|too-far-rejected")
@@ -238,7 +253,7 @@ def _would_fail_naive(slon, slat, qlon, qlat, tol):
     return False
 
 
-def idw(rec, key, det, ds, slon, slat, qlon, qlat, qconv, tol, kw, rng, E):
+def idw(rec, key, det, ds, slon, slat, qlon, qlat, qconv, tol, kw, rng, E, qarg):
     ms = int(rng.integers(1, 7))
     key += "|max_sites=%d" % min(ms, 4)
     exp, amb = [], False
@@ -263,7 +278,7 @@ def idw(rec, key, det, ds, slon, slat, qlon, qlat, qconv, tol, kw, rng, E):
         rec.skip("idw", "a station at exactly the tolerance or a tie at the max_sites cut")
         return
     try:
-        r = ds.spec.sel(list(qlon), list(qlat), method="idw", tolerance=tol, max_sites=ms, **kw)
+        r = ds.spec.sel(*qarg, method="idw", tolerance=tol, max_sites=ms, **kw)
     except Exception as e:
         rec.bad("idw", key, dict(det, raised=repr(e)[:200], max_sites=ms), "sel-raises")
         return
@@ -293,7 +308,7 @@ def idw(rec, key, det, ds, slon, slat, qlon, qlat, qconv, tol, kw, rng, E):
     rec.ok("idw", key, sample={"query": [qlon[0], qlat[0]], "expected": exp[0][0], "stations": exp[0][1]})
 
 
-def bbox(rec, key, det, ds, slon, slat, dlon, qlon, qlat, qconv, tol, kw, rng, E):
+def bbox(rec, key, det, ds, slon, slat, dlon, qlon, qlat, qconv, tol, kw, rng, E, qarg):
     lo, hi = qlon.min() - tol, qlon.max() + tol
     la0, la1 = qlat.min() - tol, qlat.max() + tol
     sets = {}
@@ -310,7 +325,7 @@ def bbox(rec, key, det, ds, slon, slat, dlon, qlon, qlat, qconv, tol, kw, rng, E
         return
     exp = list(list(sets.values())[0])
     try:
-        r = ds.spec.sel(list(qlon), list(qlat), method="bbox", tolerance=tol, **kw)
+        r = ds.spec.sel(*qarg, method="bbox", tolerance=tol, **kw)
     except ValueError as e:
         if not exp:
             rec.ok("bbox", key + "|empty-box-rejected")
